@@ -52,7 +52,7 @@ func routingMenu(actions []flyt.Action, horizons ...int) func(h *H, c call) []an
 func (h *H) runFlowOnce(f *flyt.Flow, label string) {
 	h.answers, h.calls = nil, nil
 	h.visits = map[*spec]int{}
-	defer func() { h.runNo++; h.hist = append(h.hist, h.traceString()) }()
+	defer func() { h.runNo++; h.hist = append(h.hist, h.traceString()); h.root.flow.foldEdits() }()
 	h.store = flyt.NewSharedStore()
 	err := f.Run(h.ctx, h.store)
 	core.Logf("%s: Flow.Run returned %v", label, err)
@@ -209,9 +209,9 @@ func genC03(tier string) []Scenario {
 		})})
 	}
 	// ---------------- A2: Connect histories (overwrites, nil, chaining form)
-	maxLen, maxMore := 3, 1
+	maxLen, maxMore := 2, 1
 	if th {
-		maxLen, maxMore = 4, 2
+		maxLen, maxMore = 3, 2
 	}
 	for first := 0; first < 12; first++ {
 		first := first
@@ -224,6 +224,25 @@ func genC03(tier string) []Scenario {
 			real := []flyt.Node{h.build(ns[0]), h.build(ns[1])}
 			f := flyt.NewFlow(real[0])
 			h.nodes[root] = f
+			// a node may re-wire the flow from inside its post callback (a "planner" node): the new
+			// connection counts from that moment on, also for the rest of the SAME run
+			midRun := 0
+			h.onCall = func(hh *H, c call) {
+				if c.ph != pPost || midRun >= 1 || core.Choose(2) == 0 {
+					return
+				}
+				midRun++
+				op := core.Choose(12)
+				from, a, to := op/6, acts[(op/3)%2], op%3
+				var toNode flyt.Node
+				var toSpec *spec
+				if to > 0 {
+					toNode, toSpec = real[to-1], ns[to-1]
+				}
+				core.Logf("Connect(%s,%q,%v) from inside %s", ns[from].id, a, to, c)
+				f.Connect(real[from], a, toNode)
+				root.flow.edits = append(root.flow.edits, edgeEdit{at: len(hh.answers) + 1, from: ns[from], action: a, to: toSpec})
+			}
 			length := 1 + core.Choose(maxLen)
 			chain := f
 			for i := 0; i < length; i++ {
